@@ -139,6 +139,7 @@ class Module:
         self.functions: Dict[str, FuncInfo] = {}
         self.classes: Dict[str, ClassInfo] = {}
         self.assigns: Dict[str, ast.expr] = {}
+        self.assign_counts: Dict[str, int] = {}
         for n in ast.walk(tree):
             if isinstance(n, ast.Import):
                 for a in n.names:
@@ -160,8 +161,20 @@ class Module:
                 for t in n.targets:
                     if isinstance(t, ast.Name):
                         self.assigns[t.id] = n.value
+                        self.assign_counts[t.id] = self.assign_counts.get(t.id, 0) + 1
             elif isinstance(n, ast.AnnAssign) and isinstance(n.target, ast.Name) and n.value is not None:
                 self.assigns[n.target.id] = n.value
+                self.assign_counts[n.target.id] = self.assign_counts.get(n.target.id, 0) + 1
+        # names rebound anywhere else at module level (loops, augmented assignments, `global`) are not constants
+        for n in ast.walk(tree):
+            if isinstance(n, ast.Global):
+                for g in n.names:
+                    self.assign_counts[g] = self.assign_counts.get(g, 0) + 2
+        for n in tree.body:
+            if isinstance(n, (ast.AugAssign, ast.For, ast.While, ast.If, ast.With, ast.Try)):
+                for x in ast.walk(n):
+                    if isinstance(x, ast.Name) and isinstance(x.ctx, ast.Store):
+                        self.assign_counts[x.id] = self.assign_counts.get(x.id, 0) + 2
 
     def resolve(self, expr: ast.expr) -> Optional[str]:
         """Dotted qualified name of a Name / Attribute chain, through the import table."""
@@ -244,6 +257,51 @@ class Model:
                 m2 = self.modules.get(mname2)
                 if m2 is not None and fname2 in m2.functions:
                     return m2.functions[fname2]
+        return None
+
+    def resolve_call(self, fn: FuncInfo, call: ast.Call) -> Optional[FuncInfo]:
+        """Static callee of a call inside fn: self.m / cls.m / super().m / ClassName.m / module function.
+
+        For self/cls receivers the method found on fn's own class is returned only if no subclass overrides it
+        (otherwise dispatch is not decided statically and None is returned).
+        """
+        f = call.func
+        if isinstance(f, ast.Attribute) and fn.cls is not None:
+            recv = f.value
+            sname = fn.self_name
+            if isinstance(recv, ast.Name) and ((sname and recv.id == sname) or recv.id in ('cls', '__class__')):
+                m = self.lookup_method(fn.cls, f.attr)
+                if m is None:
+                    return None
+                for sub in self.subclasses(fn.cls):
+                    if f.attr in sub.methods:
+                        return None
+                return m
+            if isinstance(recv, ast.Call) and isinstance(recv.func, ast.Name) and recv.func.id == 'type' and \
+                    len(recv.args) == 1 and isinstance(recv.args[0], ast.Name) and recv.args[0].id == sname:
+                m = self.lookup_method(fn.cls, f.attr)
+                if m is None or any(f.attr in sub.methods for sub in self.subclasses(fn.cls)):
+                    return None
+                return m
+        if isinstance(f, ast.Attribute):
+            c = self._resolve_class(fn.module, f.value) if isinstance(f.value, (ast.Name, ast.Attribute)) else None
+            if c is not None:
+                return self.lookup_method(c, f.attr)
+        if isinstance(f, (ast.Name, ast.Attribute)):
+            return self.resolve_function(fn.module, f)
+        return None
+
+    def module_constant(self, mod: Module, name: str) -> Optional[ast.expr]:
+        """Value expression of a module-level name bound exactly once (a constant), possibly imported."""
+        if name in mod.assigns and mod.assign_counts.get(name, 0) == 1:
+            return mod.assigns[name]
+        if name in mod.imports:
+            q = mod.imports[name]
+            if '.' in q:
+                mname, n2 = q.rsplit('.', 1)
+                m2 = self.modules.get(mname)
+                if m2 is not None and n2 in m2.assigns and m2.assign_counts.get(n2, 0) == 1:
+                    return m2.assigns[n2]
         return None
 
     def cls(self, name: str) -> ClassInfo:
